@@ -23,7 +23,16 @@ async fn write_hs_msg(s: &mut TcpStream, body: &[u8]) {
 pub async fn start(flags: u64) -> tokio::task::JoinHandle<TcpStream> {
     let node_l = TcpListener::bind("127.0.0.1:0").await.expect("bind node");
     let node_port = node_l.local_addr().unwrap().port();
-    let epmd_l = TcpListener::bind("127.0.0.1:4369").await.expect("bind epmd 4369");
+    // the fake EPMD needs the well-known port: another replay (a concurrent check) may hold it for a moment.  Wait for it;
+    // if it never becomes free this replay cannot run at all: exit code 2 = "no observation" (never "reproduced")
+    let mut epmd_l = None;
+    for _ in 0..300 {
+        match TcpListener::bind("127.0.0.1:4369").await {
+            Ok(l) => { epmd_l = Some(l); break; }
+            Err(_) => tokio::time::sleep(std::time::Duration::from_millis(100)).await,
+        }
+    }
+    let epmd_l = match epmd_l { Some(l) => l, None => { eprintln!("port 4369 busy: replay not run"); std::process::exit(2) } };
     tokio::spawn(async move {
         // one PORT2_REQ
         let (mut s, _) = epmd_l.accept().await.unwrap();
